@@ -180,6 +180,9 @@ def check(ctx):
     # occurrences count: no set / dict keyed by the species stands between a reactant list and the terms built from it
     from ..multiplicity import rule as multiplicity_rule
     multiplicity_rule(ctx, "R10", ['ode'], "the Jacobian")
+    # each rendering is computed from the network of that call: the renderer keeps no memo between two renderings (shared with C17.R7)
+    from .c17 import stateless_renderer
+    stateless_renderer(ctx, package(ctx.tree), "R11")
 
 
 
